@@ -180,6 +180,24 @@ def _node_class(with_len):
 NodeA, NodeB = _node_class(True), _node_class(False)      # two distinct classes that share module and name
 
 
+class Weird(object):
+    """comparisons that are neither reflexive nor boolean (query-builder / NaN style)"""
+
+    def __init__(self, name):
+        self.name = name
+
+    def __repr__(self):
+        return "Weird(%r)" % self.name
+
+    def __eq__(self, other):
+        return ("EQ", self.name, getattr(other, "name", None))
+
+    def __ne__(self, other):
+        return ("NE", self.name, getattr(other, "name", None))
+
+    __hash__ = None
+
+
 def gen3():
     yield 1
     yield "two"
@@ -188,10 +206,11 @@ def gen3():
 
 def make_world():
     return [[1, 2, 3], {"a": 1, 2: "b"}, {1, 2}, bytearray(b"abc"), collections.deque([1, 2]), io.BytesIO(b"hello world"),
-            Vec(1, 2), Vec(0), iter([10, 20, 30]), gen3(), list(range(12)), Vec2(5, -5, 0), NodeA(), NodeB(), iter(range(40))]
+            Vec(1, 2), Vec(0), iter([10, 20, 30]), gen3(), list(range(12)), Vec2(5, -5, 0), NodeA(), NodeB(), iter(range(40)),
+            Weird("a"), iter(range(2600))]
 
 
-KINDS = ["list", "dict", "set", "bytearray", "deque", "bytesio", "vec", "vec", "iter", "gen", "list", "vec", "node", "node", "iter"]
+KINDS = ["list", "dict", "set", "bytearray", "deque", "bytesio", "vec", "vec", "iter", "gen", "list", "vec", "node", "node", "iter", "weird", "iter"]
 
 
 def snapshot(o, depth=0, seen=None):
@@ -221,6 +240,8 @@ def snapshot(o, depth=0, seen=None):
             return ["bytesio", o.closed] + ([o.getvalue().hex(), o.tell()] if not o.closed else [])
         if t in (NodeA, NodeB):
             return ["node", sorted(o.__dict__)]
+        if t is Weird:
+            return ["weird", o.name]
         if t in (Vec, Vec2):
             d = o.__dict__
             return ["vec", snapshot(d.get("xs", "<deleted>"), depth + 1, seen), snapshot(d.get("log", "<deleted>"), depth + 1, seen),
@@ -305,6 +326,8 @@ def apply_step(step, objs, val, world_new):
         return UOPS[step[2]](o)
     if op == "cmp":
         return CMPS[step[2]](o, operand(step[3]))
+    if op == "cmp_self":
+        return CMPS[step[2]](o, o)
     if op == "getitem":
         return o[operand(step[2])]
     if op == "setitem":
@@ -370,7 +393,7 @@ CONFIGS = {
     "default": {},
 }
 # what the default policy permits by name (safe attrs / exposed prefix): other step kinds are not generated under it
-DEFAULT_OK = set(["binop", "iop", "unop", "cmp", "getitem", "setitem", "delitem", "contains", "iter_all", "iter", "next", "buffiter", "len",
+DEFAULT_OK = set(["binop", "iop", "unop", "cmp", "cmp_self", "getitem", "setitem", "delitem", "contains", "iter_all", "iter", "next", "buffiter", "len",
                   "str", "repr", "hash", "bool", "format", "call", "with", "isinstance"])
 
 
@@ -434,7 +457,7 @@ def check(case, rec):
                     twins.append(tw[1])
                     proxies.append(pr[1])
                     continue
-                key = stp[0] + (":" + str(stp[2]) if stp[0] in ("method", "binop", "iop", "unop", "cmp", "getattr", "setattr", "delattr", "with",
+                key = stp[0] + (":" + str(stp[2]) if stp[0] in ("method", "binop", "iop", "unop", "cmp", "cmp_self", "getattr", "setattr", "delattr", "with",
                                                                "format", "isinstance") else "")
                 kind = type(twin_before).__name__
                 if tw[0] != pr[0] or (tw[0] == "exc" and tw[1] != pr[1]):
@@ -472,7 +495,7 @@ def check(case, rec):
                             problems.append(("result", "%s on %s: result object differs" % (key, kind),
                                              {"step": i, "proxy": repr(snapshot(target))[:120], "twin": repr(snapshot(tv))[:120]}))
                             return
-                        if type(tv) is not tuple and len(twins) < 30:
+                        if type(tv) is not tuple and len(twins) < 32:
                             twins.append(tv)
                             proxies.append(pv)
                 # state of every target vs its twin
@@ -521,11 +544,11 @@ _key = st.one_of(_int, _int, st.sampled_from([["str", "a"], ["none"], ["slice", 
 
 def operand():
     return st.one_of(_small.map(lambda s: ["v", s]), _int.map(lambda s: ["v", s]), _int.map(lambda s: ["v", s]),
-                     st.integers(0, 14).map(lambda i: ["h", i]))
+                     st.integers(0, 16).map(lambda i: ["h", i]))
 
 
 def steps():
-    h = st.integers(0, 29)
+    h = st.integers(0, 31)
     opnd = operand()
 
     def method_step(i):
@@ -538,10 +561,13 @@ def steps():
         st.tuples(st.just("delattr"), h, st.sampled_from([a for a in ATTRS if a != "__doc__"])),
         st.tuples(st.just("binop"), h, st.sampled_from(sorted(OPS2)), opnd, st.booleans()), st.tuples(st.just("iop"), h, st.sampled_from(sorted(IOPS)), opnd),
         st.tuples(st.just("unop"), h, st.sampled_from(sorted(UOPS))), st.tuples(st.just("cmp"), h, st.sampled_from(sorted(CMPS)), opnd),
+        st.tuples(st.just("cmp_self"), h, st.sampled_from(["eq", "ne", "eq", "le"])),
         st.tuples(st.just("getitem"), h, _key.map(lambda s: ["v", s])), st.tuples(st.just("setitem"), h, _key.map(lambda s: ["v", s]), opnd),
         st.tuples(st.just("delitem"), h, _key.map(lambda s: ["v", s])), st.tuples(st.just("contains"), h, opnd),
         st.tuples(st.just("iter_all"), h), st.tuples(st.just("iter"), h), st.tuples(st.just("next"), h),
         st.tuples(st.just("buffiter"), h, st.integers(1, 5), st.integers(1, 6), st.sampled_from([1, 2, 3])),
+        st.tuples(st.just("buffiter"), st.sampled_from([16, 14, 8, 10]), st.sampled_from([1, 7, 1001, 1500]), st.sampled_from([3, 1000, 1500, 2000]),
+                  st.sampled_from([1, 2])),
         st.tuples(st.sampled_from(["len", "str", "repr", "hash", "bool", "dir", "class"]), h),
         st.tuples(st.just("format"), h, st.sampled_from(["", "x", ">5"])), st.tuples(st.just("isinstance"), h, st.sampled_from(["list", "dict", "vec", "int", "deque", "object"])),
         st.tuples(st.just("call"), h, st.lists(opnd, max_size=2), st.lists(st.tuples(st.sampled_from(["k", "z"]), opnd).map(list), max_size=1)),
